@@ -164,6 +164,7 @@ pub struct Ctx {
   used: std::collections::BTreeSet<OutPoint>,
   pub rows: Vec<Value>,
   tag: String,
+  theirs: Option<OutPoint>,
 }
 
 fn decimal(a: u128, div: u8) -> String {
@@ -203,6 +204,7 @@ impl Ctx {
       used: Default::default(),
       rows: Vec::new(),
       tag: tag.into(),
+      theirs: None,
     })
   }
 
@@ -344,6 +346,19 @@ impl Ctx {
     Ok(premines)
   }
 
+  /// an inscription revealed onto a foreign output (somebody else's inscription, to make offers for)
+  fn inscribe_foreign(&mut self, sats: u64) -> Result<OutPoint> {
+    let (a, va) = self.take_cardinal(BTC)?;
+    let insc = ord::Inscription { body: Some(b"theirs".to_vec()), content_type: Some(b"text/plain".to_vec()), ..Default::default() };
+    let mut wit = Witness::new();
+    wit.push(insc.append_reveal_script_to_builder(script::Builder::new()).into_script().as_bytes());
+    wit.push(crate::node::control_block());
+    let dest = self.foreign[6].clone();
+    let change = self.recv_addr();
+    let txid = self.raw(vec![(a, wit)], vec![self.pay(&dest, sats), self.pay(&change, va.to_sat() - sats - 2000)]);
+    Ok(OutPoint { txid, vout: 0 })
+  }
+
   /// an inscription revealed onto a wallet output of `sats`
   fn inscribe(&mut self, sats: u64) -> Result<OutPoint> {
     let (a, va) = self.take_cardinal(BTC)?;
@@ -457,7 +472,7 @@ impl Ctx {
     let (inv, utxos_before) = self.inventory()?;
     let burned_before = self.burned()?;
     self.w.core.state().locked.clear();
-    if dry {
+    if dry && kind != "offer" {
       args.insert(2, "--dry-run".into());
     }
     let argv: Vec<&str> = args.iter().map(|s| s.as_str()).collect();
@@ -683,7 +698,16 @@ impl Ctx {
     let r = self.rng.gen_range(1..=nr);
     let info = self.runes[r - 1].clone();
     let fee = "1".to_string();
-    match self.rng.gen_range(0..10) {
+    match self.rng.gen_range(0..12) {
+      10 | 11 => {
+        // an offer for somebody else's inscription: node-funded, returns a PSBT, broadcasts nothing
+        let Some(theirs) = self.theirs else { return Ok(()) };
+        let Some(id) = self.w.index.get_inscriptions_for_output(theirs)?.unwrap_or_default().first().copied() else { return Ok(()) };
+        let args = vec!["wallet".into(), "offer".into(), "create".into(), "--inscription".into(), id.to_string(), "--amount".into(), "2btc".into(),
+          "--fee-rate".into(), "1".into()];
+        let dest = self.foreign[6].clone();
+        self.op("offer", json!({}), args, &[dest], true)
+      }
       0..=2 => {
         let amt = self.pick_amount(r, &tot, &first);
         let d = self.rng.gen_range(0..self.foreign.len());
@@ -778,6 +802,7 @@ pub fn runes_trace(seed: u64, worlds: usize, ops: usize, dry_splits: usize, out:
     for _ in 0..n_insc {
       inscribed.push(c.inscribe(53 * BTC)?);
     }
+    c.theirs = Some(c.inscribe_foreign(10_000)?);
     c.w.mine(1)?;
     let m = c.rng.gen_range(1..=4usize);
     let first = if !inscribed.is_empty() && c.rng.gen_bool(0.5) { inscribed.pop() } else { None };
